@@ -131,6 +131,32 @@ def run_item(item):
         missing = [c for c in tsub if c not in out.columns]
         if missing:
             viol("debug:columns", f"debug=True result lacks targets {missing}")
+    # index labels of the caller's table (permuted, filtered, strings, duplicates) must not matter:
+    # one row per input row, in input order, values unchanged - with and without debug
+    for lab_name, labels in (("permuted", rng.permutation(n)), ("offset", np.arange(n) + 4), ("strings", np.array([f"r{i}" for i in range(n)], dtype=object)),
+                             ("duplicates", np.zeros(n, dtype=int))):
+        dfi = df.copy()
+        dfi.index = labels
+        for dbg in (False, True):
+            try:
+                with warnings.catch_warnings():
+                    warnings.simplefilter("ignore")
+                    o = env.compute_taxes_and_transfers(dfi, params, functions, targets=list(tsub), debug=dbg)
+            except Exception as e:  # noqa: BLE001
+                viol(f"index_labels:exception:debug={dbg}", f"index labels '{lab_name}' with debug={dbg} raise {type(e).__name__}: {str(e)[:160]}")
+                continue
+            res["runs"] += 1
+            res["kinds"]["index_labels"] = res["kinds"].get("index_labels", 0) + 1
+            if len(o) != n:
+                viol(f"index_labels:rows:debug={dbg}", f"index labels '{lab_name}', debug={dbg}: {len(o)} rows for {n} input rows")
+                continue
+            for t in tsub:
+                res["columns_compared"] += 1
+                if not _eq(o[t].to_numpy(), S0[t].to_numpy()):
+                    viol(f"index_labels:value:debug={dbg}", f"index labels '{lab_name}', debug={dbg}: column {t} is not in input row order / differs from the all-nodes run")
+                    break
+            if dbg and "p_id" in o.columns and not np.array_equal(o["p_id"].to_numpy(), df["p_id"].to_numpy()):
+                viol("index_labels:debug_inputs", f"index labels '{lab_name}': debug output rows are not the input rows in input order")
     extra = df.copy()
     extra["völlig_unbenutzt"] = np.arange(n, dtype=float)
     extra["bruttolohn_m_xx"] = 1.0
